@@ -418,6 +418,7 @@ func genLRUCase(t *rapid.T, minLen int) LRUCase {
 			c.Ops = append(c.Ops, LRUOp{Kind: "S", Key: hk, Val: 778000 + r}, LRUOp{Kind: "D", Key: hk})
 		}
 		c.Ops = append(c.Ops, LRUOp{Kind: "N"}, LRUOp{Kind: "L", Key: cold})
+		ev.Class("an entry nobody touches while other keys come and go by Delete alone")
 	}
 	for i := 0; i < n; i++ {
 		k := fmt.Sprintf("k%d", rapid.IntRange(0, nkeys-1).Draw(t, "key"))
